@@ -259,6 +259,15 @@ def check_int(case):
         back = c.scsi_ba_to_int(ba)
         back2 = c.scsi_ba_to_int(bytes(ba))
     expect(back == x and back2 == x, "mismatch:ba_to_int_roundtrip", n=n, x=x, got=[back, back2])
+    # the array belongs to the caller (the composers extend and patch such arrays in place): whatever is done
+    # to it, converting the same integer again gives the same bytes
+    if isinstance(ba, bytearray):
+        ba += b"\xff"
+        if n:
+            ba[0] ^= 0xFF
+        with lib("scsi_int_to_ba"):
+            again = c.scsi_int_to_ba(x, n)
+        expect(bytes(again) == x.to_bytes(n, "big"), "mismatch:int_to_ba_depends_on_an_earlier_result", n=n, x=x, got=again)
     return (n >= 2 and x >= 256), ("int_roundtrip",)
 
 
